@@ -241,6 +241,8 @@ def scenario_list(tier):
     sc.append(dict(kind="Riemannian", flavour="diag", integ="implicit_midpoint", N=1, free=[], h1first=True))
     sc.append(dict(kind="Riemannian", flavour="dense", integ="implicit_midpoint", N=1, free=[], h1first=True))
     sc.append(dict(kind="Euclidean", metric="dense", integ="implicit_midpoint", N=1, free=[], h1first=True))
+    sc.append(dict(kind="Gaussian", metric="dense", integ="implicit_midpoint", N=1, free=[], h1first=True))
+    sc.append(dict(kind="Gaussian", metric="diag", integ="implicit_leapfrog", N=1, free=[], h1first=True))
     sc.append(dict(kind="SoftAbs", integ="implicit_midpoint", N=1, free=[], h1first=True))
     sc.append(dict(kind="Euclidean", metric="dense", integ="implicit_leapfrog", N=1, free=[], h1first=True))
     for kind in ("Constrained", "ConstrainedHausdorff", "GaussianConstrained"):
@@ -349,11 +351,18 @@ def record_step(sc, direction):
     return tr
 
 
-def measure_roundtrip(sc, n=3):
-    """n steps, flip direction, n steps on an un-instrumented integrator; returns (ok, err) or None on error."""
+def measure_roundtrip(sc, n=3, metric_history=False):
+    """n steps, flip direction, n steps on an un-instrumented integrator; returns (ok, err) or None on error.
+
+    metric_history: the system and integrator were used before with another metric -- two steps, then the
+    system's metric is reassigned (what the metric adapters do between stages) -- and the round trip is made
+    with the new metric: nothing remembered from the earlier steps may enter it."""
     from mici.errors import IntegratorError
+    from mici.states import ChainState
 
     model, system, integ, state = build(sc)
+    if metric_history:
+        state = _warm_and_reassign_metric(sc, model, system, integ, state)
     s = state
     try:
         for _ in range(n):
@@ -369,32 +378,69 @@ def measure_roundtrip(sc, n=3):
     return err <= tol, err
 
 
-def measure_consistency(sc):
-    """(q1 - q0)/eps vs dH/dp and (p1 - p0)/eps vs -dH/dq at the initial state for a tiny step."""
+def _warm_and_reassign_metric(sc, model, system, integ, state):
+    """Two earlier steps in the direction of the state, then `system.metric` is reassigned (what the metric
+    adapters do between stages).  Returns the state to continue from (momentum redrawn in the cotangent space
+    of the new metric for constrained systems)."""
+    from mbv import matzoo
+    from mici.errors import IntegratorError
+    from mici.states import ChainState
+
+    try:
+        integ.step(integ.step(state))
+    except IntegratorError:
+        pass
+    system.metric = matzoo.pos_def_metrics(model.n)["dense" if sc.get("metric") == "diag" else "diag"][0]
+    if "Constrained" in sc["kind"]:
+        mom = system.sample_momentum(ChainState(pos=np.array(state.pos), mom=None, dir=1), np.random.default_rng(6))
+        return ChainState(pos=np.array(state.pos), mom=np.array(mom), dir=state.dir)
+    return state
+
+
+def _fd_grad_h(system, pos, mom, delta=1e-5):
+    """Central finite differences of the system's OWN Hamiltonian system.h (independent of its derivative
+    methods): returns (dh/dq, dh/dp)."""
+    from mici.states import ChainState
+
+    def h(q, p_):
+        return float(system.h(ChainState(pos=np.array(q), mom=np.array(p_), dir=1)))
+
+    n = len(pos)
+    gq, gp = np.zeros(n), np.zeros(n)
+    for i in range(n):
+        e = np.zeros(n)
+        e[i] = delta
+        gq[i] = (h(pos + e, mom) - h(pos - e, mom)) / (2 * delta)
+        gp[i] = (h(pos, mom + e) - h(pos, mom - e)) / (2 * delta)
+    return gq, gp
+
+
+def measure_consistency(sc, metric_history=False):
+    """(q1 - q0)/eps vs dH/dp and (p1 - p0)/eps vs -dH/dq at the initial state for a tiny step, H being the
+    system's own Hamiltonian `system.h`, differentiated numerically.  For constrained systems the momentum
+    equation holds up to a constraint force J^T lambda, so the residual is compared after projecting out the
+    row space of the constraint Jacobian."""
     from mici.errors import IntegratorError
 
     eps = 1e-5
     model, system, integ, state = build(sc, step=eps)
+    if metric_history:
+        state = _warm_and_reassign_metric(sc, model, system, integ, state)
     try:
         new = integ.step(state)
     except IntegratorError:
         return None
-    vq = (new.pos - state.pos) / eps
-    vp = (new.mom - state.mom) / eps
-    from mici.states import ChainState
-    ref = ChainState(pos=np.array(state.pos), mom=np.array(state.mom), dir=1)
-    dq = np.asarray(system.dh_dmom(ref))
-    if sc["kind"] == "Gaussian":
-        dp = -(np.asarray(system.dh1_dpos(ref)) + np.asarray(system.dh2_dpos(ref)))
-    elif "Constrained" in sc["kind"]:
-        dp = None  # includes the constraint force: only the position part is compared
-    else:
-        dp = -np.asarray(system.dh_dpos(ref))
+    vq = state.dir * (new.pos - state.pos) / eps
+    vp = state.dir * (new.mom - state.mom) / eps
+    gq, gp = _fd_grad_h(system, np.array(state.pos), np.array(state.mom))
+    dq, dp = gp, -gq
+    res_p = vp - dp
+    if "Constrained" in sc["kind"]:
+        j = model._jac(np.array(state.pos))
+        res_p = res_p - j.T @ np.linalg.solve(j @ j.T, j @ res_p)
     scale_q = max(1.0, float(np.max(np.abs(dq))))
     ok_q = float(np.max(np.abs(vq - dq))) <= 2e-3 * scale_q
-    ok_p = True
-    if dp is not None:
-        ok_p = float(np.max(np.abs(vp - dp))) <= 2e-3 * max(1.0, float(np.max(np.abs(dp))))
+    ok_p = float(np.max(np.abs(res_p))) <= 2e-3 * max(1.0, float(np.max(np.abs(dp))))
     ratio = float(vq @ dq / (dq @ dq)) if float(dq @ dq) > 0 else float("nan")
     return ok_q, ok_p, ratio
 
@@ -424,14 +470,18 @@ def stress_roundtrips(sc, n_trials):
             st0 = ChainState(pos=pos, mom=None, dir=1)
             mom = system.project_onto_cotangent_space(rng.standard_normal(2) * rng.choice([1.0, 3.0]), st0)
         else:
-            model = zoo.Model(3)
+            # two families: large momenta near the origin, and long steps from anywhere (where the direct
+            # fixed-point iteration of the implicit sub-steps may cycle instead of converging)
+            wide = t % 4 >= 2
+            dim = 2 if (wide and t % 8 >= 6) else 3
+            model = zoo.Model(dim)
             system = zoo.make_system(sc["kind"], model, flavour=sc.get("flavour", "diag"))
-            step = float(rng.choice([0.25, 0.35, 0.5]))
+            step = float(rng.choice([0.5, 0.6, 0.8, 1.2, 1.5, 1.8] if wide else [0.25, 0.35, 0.5]))
             fps = S.solve_fixed_point_direct if t % 2 == 0 else S.solve_fixed_point_steffensen
             cls = I.ImplicitLeapfrogIntegrator if sc["integ"] == "implicit_leapfrog" else I.ImplicitMidpointIntegrator
             integ = cls(system, step, fixed_point_solver=fps)
-            pos = rng.uniform(-0.3, 0.3, 3)
-            mom = rng.standard_normal(3) * rng.uniform(3.0, 10.0)
+            pos = rng.uniform(-1.5, 1.5, dim) if wide else rng.uniform(-0.3, 0.3, dim)
+            mom = rng.standard_normal(dim) * (rng.uniform(1.0, 10.0) if wide else rng.uniform(3.0, 10.0))
         state = ChainState(pos=np.array(pos), mom=np.array(mom), dir=int(rng.choice([1, -1])))
         try:
             s1 = integ.step(state)
@@ -525,14 +575,23 @@ def run_traces(tier, name):
             cs = measure_consistency(sc)
             if rt is not None:
                 tr["roundtrip_ok"], tr["rt_err"] = rt
+            if sc.get("metric") and not sc.get("expect_fail"):
+                rt2 = measure_roundtrip(sc, metric_history=True)
+                if rt2 is not None and not rt2[0]:
+                    tr["roundtrip_ok"], tr["rt_err"] = False, f"{rt2[1]} (after two earlier steps and a reassignment of system.metric)"
             if cs is not None:
                 tr["consistent_pos"], tr["consistent_mom"], tr["ratio"] = cs
+            if sc.get("metric") and not sc.get("expect_fail"):
+                cs2 = measure_consistency(sc, metric_history=True)
+                if cs2 is not None and not (cs2[0] and cs2[1]):
+                    tr["consistent_pos"], tr["consistent_mom"] = cs2[0], cs2[1]
+                    tr["ratio"] = f"{cs2[2]} (after two earlier steps and a reassignment of system.metric)"
             tr["sc"], tr["direction"] = sc, direction
             if direction == 1 and not sc.get("expect_fail") and (
                     (sc["integ"] in ("implicit_leapfrog", "implicit_midpoint") and sc["kind"] in ("Riemannian", "SoftAbs")
                      and sc.get("flavour", "diag") in ("diag", "scalar", "-"))
                     or (sc["integ"] == "constrained" and sc["kind"] == "Constrained" and sc.get("curved", True))):
-                ok, nret, worst = stress_roundtrips(sc, 60 if tier == "quick" else 400)
+                ok, nret, worst = stress_roundtrips(sc, (600 if tier == "quick" else 4000) if sc["integ"] != "constrained" else (60 if tier == "quick" else 400))
                 tr["stress_ok"], tr["stress_worst"], tr["stress_returned"] = ok, worst, nret
             traces.append(tr)
     fails, states = validate(traces, name)
@@ -552,7 +611,8 @@ def run_traces(tier, name):
                 owner = OWNER[inv]
             detail = {"FollowsProgram": f"sub-step events {evs} do not spell out the documented composition",
                       "TimeBudget": f"component time budgets differ from one step size (events {evs})",
-                      "Consistent": f"displacement over a step of size eps is {tr.get('ratio')} x eps * dH/dp (must be 1)",
+                      "Consistent": f"over a step of size eps the {'position' if not tr['consistent_pos'] else 'momentum'} does not move by eps times the "
+                                    f"derivative of the system's own Hamiltonian system.h (position displacement ratio {tr.get('ratio')}, must be 1)",
                       "ReverseChecked": f"reverse-check protocol violated (outcome {tr['outcome']}, events {[(e['op'], e['ok']) for e in tr['ev']]})",
                       "RoundTrip": f"n steps, flip, n steps misses the start by {tr.get('rt_err')}; hard-state round trips: "
                                    f"{tr.get('stress_returned')} returned, worst relative miss {tr.get('stress_worst')} (a returned step that is not undone by flip + step must raise an IntegratorError instead)",
